@@ -35,6 +35,13 @@ def target(rng, X, kind="reg", nnz=3, snr=3.0, offset=0.0, n_tasks=1):
         W[supp] = rng.standard_normal((nnz, n_tasks)) * 2
         Y = X @ W + offset
         Y = Y + rng.standard_normal(Y.shape) * (np.std(Y) / snr + 1e-3)
+        if offset:
+            # tasks with DIFFERENT means: the first one exactly centred, the last one shifted the other way
+            # (the other tasks all on one side of it, the side drawn at random)
+            sgn = 1.0 if rng.random() < 0.5 else -1.0
+            Y[:, 0] -= Y[:, 0].mean()
+            for k_ in range(1, n_tasks):
+                Y[:, k_] += sgn * (1.0 + k_) * abs(offset) - Y[:, k_].mean()
         return np.asfortranarray(Y)
     w = np.zeros(p)
     supp = rng.choice(p, nnz, replace=False)
